@@ -16,9 +16,9 @@ overlay) are not modelled.  What is proved here is about the CORE model `Model/F
 * `collapse_kept_iff`: a collapsed line / polygon comes back lower-dimensional exactly when requested;
 * `fix_collection_ignores_keep`: inside a GeometryCollection keep-collapsed is never honoured (the code calls the static
   `fix`) — a documented quirk of the model, observed on the implementation too;
-* `fix_empty_polygon_keep` : with keep-collapsed an EMPTY polygon becomes `LINESTRING EMPTY`, hence
-  `fix_not_idempotent_on_empty_polygon`: repairing a repaired geometry can change its type — the negation of the
-  idempotence clause of the property for this corner, replayed on the implementation by the check (finding).
+* `fix_empty_atomic`, `fix_empty_polygon_stable`: EMPTY atomic inputs come back as the EMPTY of their own type with keep on
+  or off (for the polygon only since /repo commit 1fc4024a4: before, keep-collapsed turned `POLYGON EMPTY` into
+  `LINESTRING EMPTY`, which made the structure method non-idempotent — finding F4, found by this check, fixed).
 
 The contract itself (output valid by the C05 reference, dimension / envelope monotone, valid input topologically equal
 by the C01 reference matrix, no vertex lost (linework), area = documented region (structure), idempotence) is evaluated
@@ -52,13 +52,17 @@ theorem fix_dispatch_total (keep : Bool) (s : Shape) (h : UnionAreal s) : (fix k
     rcases ringElem_cases keep e v c with h1 | h1 | h1 | ⟨hk, h1⟩ <;> rw [h1] <;> simp [Res.ty, *]
   | polygon se a c n w =>
     simp only [fix, Shape.ty, allowed]
-    rcases polyElem_cases keep se a w c n with h1 | h1 | h1 | h1 | ⟨hk, h1 | h1 | h1⟩ <;> rw [h1] <;> simp [Res.ty, *]
+    rcases polyElem_cases keep se a w c n with h1 | h1 | h1 | h1 | ⟨hk, h1 | h1⟩ <;> rw [h1] <;> simp [Res.ty, *]
   | multiPoint ps =>
     simp only [fix, Shape.ty, allowed]
     split_ifs <;> simp [Res.ty]
   | multiLine ls =>
     simp only [Shape.ty, allowed]
-    rcases multiLine_ty keep ls with h1 | h1 | ⟨hk, h1 | h1⟩ <;> simp [h1, *]
+    rcases multiLine_ty keep ls with h1 | h1 | ⟨hk, h1 | h1⟩
+    · simp [h1]
+    · simp [h1]
+    · subst hk; simp [h1]
+    · subst hk; simp [h1]
   | multiPolygon ps u =>
     simp only [fix, Shape.ty, allowed]
     split_ifs
@@ -77,33 +81,23 @@ theorem fix_collection_ignores_keep (keep : Bool) (gs : List Shape) (h : gs ≠ 
   have : gs.isEmpty = false := by cases gs <;> simp_all
   simp [this, fixList_eq_map]
 
-/-- the dimension of the result's type never exceeds the dimension of the input's type (atomic and Multi inputs) -/
-theorem fix_dim_le (keep : Bool) (s : Shape) (h : UnionAreal s) (hc : s.ty ≠ .collection)
-    (hml : ∀ ls, s ≠ .multiLine ls) : (fix keep s).ty.dim ≤ s.ty.dim := by
-  have hm := fix_dispatch_total keep s h
-  cases s with
-  | collection gs => exact absurd rfl hc
-  | multiLine ls => exact absurd rfl (hml ls)
-  | point e v => simp only [Shape.ty, allowed] at hm ⊢; cases keep <;> simp at hm <;> rcases hm with hm <;> simp [hm, Ty.dim]
-  | line e c => simp only [Shape.ty, allowed] at hm ⊢; cases keep <;> simp at hm <;> rcases hm with hm | hm <;> simp [hm, Ty.dim]
-  | ring e c v => simp only [Shape.ty, allowed] at hm ⊢; cases keep <;> simp at hm <;> rcases hm with hm | hm | hm <;> simp [hm, Ty.dim]
-  | polygon se a c n w => simp only [Shape.ty, allowed] at hm ⊢; cases keep <;> simp at hm <;> rcases hm with hm | hm | hm | hm <;> simp [hm, Ty.dim]
-  | multiPoint ps => simp only [Shape.ty, allowed] at hm ⊢; simp at hm; simp [hm, Ty.dim]
-  | multiPolygon ps u => simp only [Shape.ty, allowed] at hm ⊢; simp at hm; rcases hm with hm | hm <;> simp [hm, Ty.dim]
+/-- the table never raises the dimension -/
+theorem allowed_dim_le (keep : Bool) (ty t : Ty) (hc : ty ≠ .collection) (h : t ∈ allowed keep ty) : t.dim ≤ ty.dim := by
+  cases keep <;> cases ty <;> cases t <;> simp_all [allowed, Ty.dim]
+
+/-- without keep-collapsed the table only contains types of the input's dimension -/
+theorem allowed_false_dim_eq (ty t : Ty) (hc : ty ≠ .collection) (h : t ∈ allowed false ty) : t.dim = ty.dim := by
+  cases ty <;> cases t <;> simp_all [allowed, Ty.dim]
+
+/-- the dimension of the result's type never exceeds the dimension of the input's type -/
+theorem fix_dim_le (keep : Bool) (s : Shape) (h : UnionAreal s) (hc : s.ty ≠ .collection) :
+    (fix keep s).ty.dim ≤ s.ty.dim :=
+  allowed_dim_le keep s.ty _ hc (fix_dispatch_total keep s h)
 
 /-- **collapses are not kept unless requested**: with keep-collapsed off the result type has the input's dimension -/
 theorem fix_no_collapse (s : Shape) (h : UnionAreal s) (hc : s.ty ≠ .collection) :
-    (fix false s).ty.dim = s.ty.dim := by
-  have hm := fix_dispatch_total false s h
-  cases s with
-  | collection gs => exact absurd rfl hc
-  | point e v => simp only [Shape.ty, allowed] at hm ⊢; simp at hm; simp [hm, Ty.dim]
-  | line e c => simp only [Shape.ty, allowed] at hm ⊢; simp at hm; simp [hm, Ty.dim]
-  | ring e c v => simp only [Shape.ty, allowed] at hm ⊢; simp at hm; rcases hm with hm | hm <;> simp [hm, Ty.dim]
-  | polygon se a c n w => simp only [Shape.ty, allowed] at hm ⊢; simp at hm; rcases hm with hm | hm <;> simp [hm, Ty.dim]
-  | multiPoint ps => simp only [Shape.ty, allowed] at hm ⊢; simp at hm; simp [hm, Ty.dim]
-  | multiLine ls => simp only [Shape.ty, allowed] at hm ⊢; simp at hm; rcases hm with hm | hm <;> simp [hm, Ty.dim]
-  | multiPolygon ps u => simp only [Shape.ty, allowed] at hm ⊢; simp at hm; rcases hm with hm | hm <;> simp [hm, Ty.dim]
+    (fix false s).ty.dim = s.ty.dim :=
+  allowed_false_dim_eq s.ty _ hc (fix_dispatch_total false s h)
 
 /-- **collapses are kept exactly when requested** (the decision table): a non-empty line whose cleaned coordinates
 are a single point, and a polygon whose shell has no area but `c ≥ 1` clean coordinates -/
@@ -114,35 +108,32 @@ theorem collapse_kept_iff (keep : Bool) :
     fix keep (.ring false 1 false) = (if keep then .atom .point false else .atom .linearRing true) ∧
     fix keep (.ring false 3 false) = (if keep then .atom .lineString false else .atom .linearRing true) := by
   cases keep
-  · refine ⟨by decide, ?_, by intros; rfl, by decide, by decide⟩
+  · refine ⟨rfl, ?_, by intros; rfl, rfl, rfl⟩
     intro c n w hc; rfl
-  · refine ⟨by decide, ?_, by intros; rfl, by decide, by decide⟩
+  · refine ⟨rfl, ?_, by intros; rfl, rfl, rfl⟩
     intro c n w hc
     simp only [fix, fixPolygonElement, fixLineString, fixLineStringElement]
     have h1 : (c == 1) = false := by simp; omega
     have h2 : ¬ c ≤ 1 := by omega
     simp [h1, h2]
 
-/-- empty atomic inputs come back as the EMPTY of their own type, except the polygon with keep-collapsed (next theorem) -/
-theorem fix_empty_atomic (keep : Bool) (v : Bool) (c : Nat) :
+/-- empty atomic inputs come back as the EMPTY of their own type, with or without keep-collapsed -/
+theorem fix_empty_atomic (keep : Bool) (v : Bool) (c n : Nat) (a w : Area) :
     fix keep (.point true v) = .atom .point true ∧ fix keep (.line true c) = .atom .lineString true ∧
-    fix keep (.ring true c v) = .atom .linearRing true ∧ fix false (.polygon true .empty 0 0 .empty) = .atom .polygon true := by
-  refine ⟨?_, ?_, ?_, rfl⟩ <;> simp [fix, fixPointElement, fixLineString, fixLineStringElement, fixLinearRingElement]
+    fix keep (.ring true c v) = .atom .linearRing true ∧ fix keep (.polygon true .empty c n w) = .atom .polygon true := by
+  refine ⟨?_, ?_, ?_, ?_⟩ <;> cases keep <;> simp [fix, fixPointElement, fixLineString, fixLineStringElement, fixLinearRingElement, fixPolygonElement]
 
-/-- with keep-collapsed, `POLYGON EMPTY` is handed to `fixLineString` and comes back as `LINESTRING EMPTY` -/
-theorem fix_empty_polygon_keep : fix true (.polygon true .empty 0 0 .empty) = .atom .lineString true := by decide
-
-/-- hence the structure method is **not idempotent** in this corner: a polygon whose holes erase it is repaired to
-`POLYGON EMPTY`, and repairing that again gives `LINESTRING EMPTY` (model statement of a finding replayed on GEOS) -/
-theorem fix_not_idempotent_on_empty_polygon :
-    ∃ s : Shape, fix true s = .atom .polygon true ∧ fix true (.polygon true .empty 0 0 .empty) ≠ fix true s :=
-  ⟨.polygon false .polygon 5 1 .empty, by decide, by decide⟩
+/-- **idempotence of the type dispatch on what the fixer itself returns for polygons** (after the fix of finding F4,
+/repo commit 1fc4024a4): an empty polygon stays `POLYGON EMPTY` with keep-collapsed on or off.  (Before the fix the model
+had `fix true (POLYGON EMPTY) = LINESTRING EMPTY`, and the check replayed the resulting non-idempotence on GEOS.) -/
+theorem fix_empty_polygon_stable (keep : Bool) : fix keep (.polygon true .empty 0 0 .empty) = .atom .polygon true :=
+  (fix_empty_atomic keep false 0 0 .empty .empty).2.2.2
 
 /-! non-vacuity -/
-example : fix true (.multiLine [.line false 1, .line false 3]) = .coll [.atom .point false, .atom .lineString false] := by decide
-example : fix false (.multiLine [.line false 1, .line false 3]) = .atom .lineString false := by decide
-example : fix true (.collection [.line false 1]) = .coll [.atom .lineString true] := by decide
-example : fix false (.multiPolygon [.polygon false .polygon 5 0 .polygon, .polygon false .empty 3 0 .empty] .polygon) = .atom .polygon false := by decide
+example : fix true (.multiLine [.line false 1, .line false 3]) = .coll [.atom .point false, .atom .lineString false] := rfl
+example : fix false (.multiLine [.line false 1, .line false 3]) = .atom .lineString false := rfl
+example : fix true (.collection [.line false 1]) = .coll [.atom .lineString true] := rfl
+example : fix false (.multiPolygon [.polygon false .polygon 5 0 .polygon, .polygon false .empty 3 0 .empty] .polygon) = .atom .polygon false := rfl
 
 /-! ## internal consistency of the contract's predicates -/
 
